@@ -13,7 +13,7 @@ The structural argument the 0.9.0 fix rests on — attempt, then tolerate "alrea
        remove the marker first), and materialises parents with the tolerant create_dir_all.
 """
 import os
-from ..terms import get_tracer, short
+from ..terms import get_tracer, short, walk
 from ..pathflow import World
 from ..pathrules import PathRules
 from ..panics import Discharger, load_records
@@ -85,8 +85,27 @@ def run(facts, rep, tier, ctx):
     rep.floor("create_dir_all slicing sites", kk, 6)
     # ... nor has any backend's / adapter's create_dir (a racing caller must get DirectoryExists, not a panic: an assertion of
     # a state that only holds sequentially is one)
-    c13.sites_for(facts, rep, ctx["V"], "R17.pc", lambda r: r.name == "create_dir" and bool(r.impl) and bool(r.impl.get("trait")) and
-                  r.impl["trait"].rsplit("::", 1)[-1] in ("FileSystem", "AsyncFileSystem"))
+    c13.sites_for(facts, rep, ctx["V"], "R17.pc", lambda r: r.name in ("create_dir", "exists", "metadata") and bool(r.impl) and
+                  bool(r.impl.get("trait")) and r.impl["trait"].rsplit("::", 1)[-1] in ("FileSystem", "AsyncFileSystem"))
+    # no process-wide lock: every lock the crate takes belongs to one filesystem value (a `static` Mutex is shared by all
+    # instances — an adapter stacked on an adapter of the same kind re-enters it and create_dir_all never returns)
+    static_locks = []
+    n_locks = 0
+    for b_ in facts.bodies:
+        if "::tests::" in b_.id or b_.file.startswith("src/test_macros"):
+            continue
+        tr_ = get_tracer(facts, b_)
+        for blk_ in b_.calls():
+            sh_ = short(blk_.term.callee() or "")
+            if sh_.split("<")[0] in ("Mutex::lock", "Mutex::try_lock", "RwLock::read", "RwLock::write", "RwLock::try_read", "RwLock::try_write",
+                                     "Condvar::wait", "Once::call_once", "OnceLock::get_or_init", "OnceCell::get_or_init") and blk_.term.args:
+                n_locks += 1
+                recv_ = tr_.operand(blk_.term.args[0])
+                if recv_[0] == "const" or any(x[0] == "const" and "alloc" in str(x[1]) for x in walk(recv_)):
+                    static_locks.append((b_.id, sh_, blk_.term.line))
+    rep.ob("R17.s", "crate", "every lock belongs to a filesystem value (no static lock)", not static_locks, "%d lock acquisitions examined" % n_locks
+           if not static_locks else "%s takes a process-wide lock (%s): shared by every instance, re-entered by stacked adapters"
+           % (static_locks[0][0], static_locks[0][1]), static_locks[0][2] if static_locks else "")
     # every way of constructing the in-memory filesystems yields one whose root is a directory (create_dir_all's first segment
     # needs it)
     from . import c03 as _c03
